@@ -2,7 +2,7 @@
 # usage: tools/selftest.sh <ID> — run the quick check against every deliberate
 # property-breaking change in checks/<id>/mutants/*.diff (applied to copies through the
 # overlay, /repo untouched) and expect exit 1 with a VIOLATION line each time.
-cd /verif || exit 2
+cd "$(dirname "$(readlink -f "$0")")/.." || exit 2
 ID=$(echo "$1" | tr 'a-z' 'A-Z'); id=$(echo "$1" | tr 'A-Z' 'a-z')
 rc=0
 for m in checks/$id/mutants/*.diff; do
